@@ -104,7 +104,8 @@ EXPECTED_PROBES = [
     "probe.px_accepted_for_stale_ballot", "probe.px_future_resolved",
     "probe.ml_leader_change", "probe.ml_two_leaders_at_once", "probe.ml_accept_out_of_order", "probe.ml_truncate",
     "probe.ml_commit_via_heartbeat", "probe.ml_pending_assigned_on_takeover", "probe.ml_future_resolved",
-    "probe.ml_promise_reported_entries", "probe.ml_recampaign_stale_nack_reached_leader", "probe.ml_recampaign_command_applied_everywhere",
+    "probe.ml_promise_reported_entries", "probe.ml_quiet_handover_decided_command_applied_everywhere", "probe.ml_quiet_new_leader_re_replicated_inherited_slot",
+    "probe.ml_recampaign_stale_nack_reached_leader", "probe.ml_recampaign_command_applied_everywhere",
     "probe.ml_leader_regained_after_own_tick_while_deposed", "probe.ml_pingpong_tail_command_applied_everywhere",
     "probe.ml_live_two_slots_in_flight", "probe.ml_live_acks_out_of_slot_order",
     "probe.px_falsy_value_proposed", "probe.px_falsy_value_adopted_from_promise", "probe.ml_leader_kept_leading_after_own_tick", "probe.ml_command_after_first_tick_applied_everywhere",
